@@ -1,7 +1,115 @@
-/- Line-protocol engine for C13 — stub, to be filled in. -/
-import CV.Proto
+/- Line-protocol engine for C13 (intention precedence). See go/overlay/internal/verifharness/c13.
+
+   reset cfg|legacy                       fresh store (config-entry mode or legacy-table mode)
+   ent <dst> <srcs>                       ConfigEntry apply: Normalize, Validate, EnsureConfigEntry
+   entdel <dst>                           DeleteConfigEntry
+   up <dst> <src> <act> <perms>           IntentionMutation upsert
+   del <dst> <src>                        IntentionMutation delete (by name)
+   lcreate <dst> <src> <act> <id>         IntentionMutation create (legacy API on config entries)
+   lset <id> <src> <dst> <act>            LegacyIntentionSet
+   ldel <id>                              LegacyIntentionDelete
+   match s|d <name>                       IntentionMatch
+   list                                   Intentions
+   check <src> <dst> <def> <ap>           source match, destination decision
+   authz <peer> <src> <dst> <def> <ap>    destination match, source decision
+   srcs = `-` or comma separated `peer;name;act;perms`; act = a|d|n|b
+-/
+import CV.Ixn
 namespace CV.Engine.C13
-open CV
-def step (_ : Unit) (_toks : List String) : Unit × String := ((), "bad-op")
-def engine : Engine := { State := Unit, init := (), step := step }
+open CV CV.Ixn
+
+def decAct (t : String) : Option Act :=
+  if t == "a" then some .allow else if t == "d" then some .deny
+  else if t == "n" then some .none else if t == "b" then some .bad else none
+
+def encAct : Act → String
+  | .allow => "a" | .deny => "d" | .none => "n" | .bad => "b"
+
+def parseSrc (tok : String) : Option Src :=
+  match tok.splitOn ";" with
+  | [p, n, a, k] => do
+      let peer ← decB p; let name ← decB n; let act ← decAct a; let perms ← k.toNat?
+      pure { peer := peer, name := name, act := act, perms := perms, prec := 0 }
+  | _ => none
+
+def encIxn (i : Ixn) : String :=
+  s!"{encB i.peer};{encB i.src};{encB i.dst};{encAct i.act};{i.perms};{i.prec};{encB i.id}"
+
+def encIxns (l : List Ixn) : String := encList (l.map encIxn)
+
+def encErr : Err → String
+  | .nameRequired => "name-required" | .dstPartialWildcard => "dst-partial-wildcard"
+  | .noSources => "no-sources" | .srcNameRequired => "src-name-required"
+  | .srcPartialWildcard => "src-partial-wildcard" | .peerWildcard => "peer-wildcard"
+  | .legacyPeer => "legacy-peer" | .legacyIdRequired => "legacy-id-required"
+  | .actionInvalid => "action-invalid" | .actionWithPerms => "action-with-perms"
+  | .permsOnWildDst => "perms-on-wild-dst" | .dupSource => "dup-source"
+  | .legacyDisabled => "legacy-disabled" | .notConfigMode => "not-config-mode"
+  | .missingId => "missing-id" | .dupLegacy => "dup-legacy"
+  | .legacyEditNotAllowed => "legacy-edit-not-allowed" | .notFound => "not-found"
+
+def res (r : Store × Option Err) : Store × String :=
+  match r.2 with
+  | none => (r.1, "ok")
+  | some e => (r.1, "err:" ++ encErr e)
+
+def encDecision (d : Decision) : String :=
+  s!"a={encBool d.allowed} p={encBool d.hasPerms} x={encBool d.hasExact}"
+
+def decSide (t : String) : Option Side :=
+  if t == "s" then some .source else if t == "d" then some .destination else none
+
+def step (st : Store) (toks : List String) : Store × String :=
+  match toks with
+  | ["reset", "cfg"] => ({ cfgMode := true }, "ok")
+  | ["reset", "legacy"] => ({ cfgMode := false }, "ok")
+  | ["ent", dst, srcs] =>
+    match decB dst, (decList srcs).mapM parseSrc with
+    | some dst, some srcs => res (applyEntry st ⟨dst, srcs⟩)
+    | _, _ => (st, "bad-op")
+  | ["entdel", dst] =>
+    match decB dst with
+    | some dst => (deleteEntry st dst, "ok")
+    | none => (st, "bad-op")
+  | ["up", dst, src, act, perms] =>
+    match decB dst, decB src, decAct act, perms.toNat? with
+    | some dst, some src, some act, some perms =>
+      res (mutUpsert st dst { peer := [], name := src, act := act, perms := perms, prec := 0 })
+    | _, _, _, _ => (st, "bad-op")
+  | ["del", dst, src] =>
+    match decB dst, decB src with
+    | some dst, some src => res (mutDelete st dst src)
+    | _, _ => (st, "bad-op")
+  | ["lcreate", dst, src, act, id] =>
+    match decB dst, decB src, decAct act, decB id with
+    | some dst, some src, some act, some id =>
+      res (mutLegacyCreate st dst { peer := [], name := src, act := act, perms := 0, prec := 0, lid := id })
+    | _, _, _, _ => (st, "bad-op")
+  | ["lset", id, src, dst, act] =>
+    match decB id, decB src, decB dst, decAct act with
+    | some id, some src, some dst, some act =>
+      res (legacySet st { peer := [], src := src, dst := dst, act := act, perms := 0, prec := 0, id := id })
+    | _, _, _, _ => (st, "bad-op")
+  | ["ldel", id] =>
+    match decB id with
+    | some id => res (legacyDelete st id)
+    | none => (st, "bad-op")
+  | ["match", side, name] =>
+    match decSide side, decB name with
+    | some side, some name => (st, encIxns (matchList st side name))
+    | _, _ => (st, "bad-op")
+  | ["list"] => (st, encIxns (listAll st))
+  | ["check", src, dst, da, ap] =>
+    match decB src, decB dst, decBool da, decBool ap with
+    | some src, some dst, some da, some ap => (st, encDecision (checkDecision st src dst da ap))
+    | _, _, _, _ => (st, "bad-op")
+  | ["authz", peer, src, dst, da, ap] =>
+    match decB peer, decB src, decB dst, decBool da, decBool ap with
+    | some peer, some src, some dst, some da, some ap =>
+      (st, encDecision (authzDecision st peer src dst da ap))
+    | _, _, _, _, _ => (st, "bad-op")
+  | _ => (st, "bad-op")
+
+def engine : Engine := { State := Store, init := { cfgMode := true }, step := step }
+
 end CV.Engine.C13
